@@ -158,6 +158,34 @@ THEOREMS = [
      LTS + "(evs : list event) (st : lts_state S), l_listener st = Closed -> l_listener (lrun ps blocked env_step ack st evs) = Closed"),
     ("accept_error_is_harmless",
      LTS + "(st : lts_state S), lstep ps blocked env_step ack st EAcceptErr = st"),
+    ("closing_response_is_final",
+     LTS + "(st : lts_state S) (k : N) (req : bytes) (hr : handler_response) (s' : S) (evs : list event), "
+     "conn_get k (l_conns st) = Some (PComplete req) -> blocked req (l_env st) = false -> "
+     "handle_chk ps req (l_env st) = Ok (hr, s') -> hr_close hr = true -> "
+     "let st1 := lstep ps blocked env_step ack st (EHandle k) in "
+     "conn_get k (l_conns st1) = Some (PReplied (hr_data hr)) /\\ "
+     "l_listener (lrun ps blocked env_step ack st1 evs) = Closed /\\ "
+     "forall j, conn_get j (l_conns (lrun ps blocked env_step ack st1 evs)) = None -> "
+     "conn_get j (l_conns (lstep ps blocked env_step ack (lrun ps blocked env_step ack st1 evs) (EConnect j))) = Some PRefused"),
+    ("outside_close_is_final",
+     LTS + "(st : lts_state S) (e : N) (evs : list event), snd (env_step e (l_env st)) = true -> "
+     "l_listener (lrun ps blocked env_step ack (lstep ps blocked env_step ack st (EEnv e)) evs) = Closed"),
+    ("accept_loop_close_is_final",
+     "forall (evs : list loop_event) (st : loop_state), close_pending st = true -> close_pending (loop_run st evs) = true"),
+    ("accept_loop_stops_after_close",
+     "forall (st : loop_state) (evs : list loop_event), close_pending st = true -> (2 <= length (filter is_floop evs))%nat -> "
+     "lp_pc (loop_run st evs) = LStopped /\\ connectable (loop_run st evs) = false"),
+    ("accept_loop_never_rebinds_after_close",
+     "forall (st : loop_state) (evs : list loop_event), close_pending st = true -> lp_pc st <> LAccept -> "
+     "lp_pc (loop_run st evs) <> LAccept /\\ connectable (loop_run st evs) = false"),
+    ("accept_loop_invariant",
+     "forall evs : list loop_event, loop_inv (loop_run loop_init evs)"),
+    ("accept_loop_rebinds",
+     "forall st : loop_state, loop_inv st -> lp_pc st = LPause -> close_pending st = false -> "
+     "loop_step st FLoop = {| lp_pc := LAccept; lp_chan := []; lp_file := true |}"),
+    ("accept_loop_refines_listener",
+     "forall (st : loop_state) (ev : loop_event), loop_inv st -> "
+     "l_listener (fold_left coarse_step (coarse_events st ev) (coarse_of st)) = loop_listener (loop_step st ev)"),
     ("accept_error_ended_the_socket_refuted",
      "exists (st : lts_state fx_state), l_listener st = Listening /\\ l_conns st = [] /\\ forall evs, "
      "l_listener (lrun_v0 fx_plugins_chk fx_blocked fx_env_step fx_ack "
@@ -231,7 +259,11 @@ RULE = ("(a) direct calls of kvarn_utils::encode_quoted_str / quoted_str_split /
         "(accept() fails with EMFILE), then released: that connection and the next ones are answered; clients that close the connection after "
         "sending `shutdown` / a closing command / `reload wait` (Manager::wait must still resolve: step 'finished'); requests on connections "
         "accepted before a shutdown and completed after it; clients that wait 1.2 s and 6.5 s (thorough: also 11 s) before, in the middle of and after "
-        "their request; 300 (thorough: 1000) connections pending at once. (h) kvarn's OWN reload plugin (component ctl.reload, in a child process "
+        "their request; 300 (thorough: 1000) connections pending at once; the socket file is removed WITHOUT waiting (step 15) and, 0 / 60 / 100, 110, ... 200 "
+        "(every 10 ms of the accept loop's pause; thorough: every 5 ms from 95 to 230, each with every closer) / 260 / 400 ms later, requests on connections "
+        "accepted before the removal are completed, one of them t-close / t-fail-close / shutdown / shutdown no-wait, or Manager::shutdown() is "
+        "called: every one is answered; then (step 16) no listener may be bound to the path 1.2 s later and a new connection is refused -- "
+        "without a close the path is bound again and answers. (h) kvarn's OWN reload plugin (component ctl.reload, in a child process "
         "whose arg0 is a script that counts how often it is started): reload, reload <junk>, reload wait (pending until the shutdown), counts. "
         "Replies are compared with the model by CLASS where the property does not fix the text (status word, close, echoed payload; kvarn's "
         "message wording is not compared), exactly for ping / the echo plugins / counters. "
@@ -242,10 +274,19 @@ ASSUMPTIONS = [
     "Unicode scalar values (what a Rust char is)",
     "one request = everything the client wrote before shutting down its write side, one reply = everything the server wrote before dropping "
     "the connection (kvarn_signal's read_to_end framing, non-uring build); partial writes are not modelled. The socket file's removal is two "
-    "events (EUnlink: nobody can connect; ERelisten: the accept loop has bound the path again); the 100 ms + 100 ms that pass in between are "
-    "not modelled (the harness waits until /proc/net/unix shows the new listener), nor is the instant between bind() and the registration "
-    "of the inotify watch, in which a removal would go unnoticed (the harness waits until /proc/self/fdinfo shows the watch), nor "
-    "connections that sit in the old listener's backlog when it is dropped",
+    "events (EUnlink: nobody can connect; ERelisten: the accept loop has bound the path again) with anything in between (script steps 15 and "
+    "16; step 10 is the pair without anything in between). The accept loop itself is a second, finer model (loop_step: position of the loop, "
+    "the messages of its channel in order, the socket file; events remove / watcher looks / somebody sends close / the loop's next step), "
+    "proved to refine the coarse one; in it the watcher's look-and-send is one event (in the code metadata() and send(false) are two "
+    "statements of one thread: a re-bind exactly between them is not modelled), nobody but the loop creates the file, and time is not "
+    "modelled: the run sweeps the delay between removal and close instead. Not modelled: the instant between bind() and the registration "
+    "of the inotify watch, in which a removal would go unnoticed (the harness waits until /proc/self/fdinfo shows the watch); "
+    "connections that sit in the old listener's backlog when it is dropped; a connect between the removal and the re-listen is not "
+    "generated (whether it is refused depends on the instant; the model says refused)",
+    "step 16 decides 'a closed instance does not listen again' by looking 1.2 s (KV_C19_CLOSED_MS) after the step was reached, and counts a "
+    "listener only if it is still bound 3 s later (a close sent in the instant between the emptying of the channel and the bind is received "
+    "by the new accept loop at once); only this direction depends on a wait, and the code under test never binds again after a close at "
+    "any delay, so load can only hide a defect here, not invent one. Without a close the step waits up to 10 s for the new listener",
     "concurrency is modelled as interleaving: the listener is a transition system whose events (connect, send, half-close, handler step, "
     "environment) each concern one connection; a handler step is atomic (plugins are functions (arguments, state) -> (response, state), a "
     "plugin that awaits something is 'blocked' until the state allows it); socket_never_wedged / accept_never_blocked quantify over all "
@@ -284,7 +325,9 @@ TRUSTED = ["modelled: utils/src/lib.rs encode_quoted_str, QuotedStrSplitIter::ne
            "clear_response_caches / get_host / get_default and src/comprash.rs UriKey as sets of keys per host; http-1.5.0 scan_path_and_query / "
            "PathAndQuery::path / query / Uri::path / Builder::path_and_query (Model/CtlHosts.v uri_parts, run against the real one); "
            "signal/src/lib.rs start_at accept loop and per-connection task (Listening / Unlinked / Closed, accept errors, connection phases "
-           "refused / open / complete / replied / gone, post_send after the write attempt); ctl/src/main.rs message construction, reply reading, "
+           "refused / open / complete / replied / gone, post_send after the write attempt), and the accept loop once more with its channel "
+           "(loop_step: select! over accept / recv, drop(listener) + pause on false, the try_recv loop with its `if close`, re-bind, "
+           "`Err(_) => return`; the watcher's callback) -- tied to the code through the coarse model it refines and the delay sweep of the run; ctl/src/main.rs message construction, reply reading, "
            "exit status and stdout (the real binary is run)",
            "byte-index slicing of a &str/String: every site in src/ctl.rs, signal/src/lib.rs and the quoting code of utils/src/lib.rs was "
            "inspected -- the only one is data.remove(0) in with_ping (modelled, proved safe); data[..prepend.len()] is on a Vec<u8>",
@@ -467,6 +510,7 @@ def sessions(rng, n):
 # ---- concurrent, pending and long requests (ctl.conc) ------------------------------------------------
 OP_OPEN, OP_WRITE, OP_FIN, OP_AWAIT, OP_SHUTDOWN, OP_RELEASE, OP_DROP, OP_REQ, OP_SEND, OP_PEEK = range(10)
 OP_UNLINK, OP_SLEEP, OP_EXHAUST, OP_RESTORE, OP_FINISHED = range(10, 15)
+OP_UNLINK_NOW, OP_RELISTENED = 15, 16
 
 
 def st(op, k=0, b=None):
@@ -697,6 +741,7 @@ def conc_sessions(rng, quick):
         out.append(conc(pending_script(rng, kinds, rng.randrange(1, 8), closer=closer, tcount=True),
                         "conc-pending-close" if closer else "conc-pending"))
     out += listener_sessions(rng, quick)
+    out += relisten_window_sessions(rng, quick)
     # many connections pending at once
     for n in ((40, 150, 300) if quick else (40, 150, 400, 1000)):
         # (from 300 on only connections that stay open without a complete request: each of them occupies a task of the server)
@@ -763,6 +808,54 @@ def listener_sessions(rng, quick):
         out.append(conc([st(OP_OPEN, 1), st(OP_OPEN, 2), st(OP_WRITE, 2, b"ping sl"), st(OP_SEND, 3, b"ping unread"), st(OP_SLEEP, ms),
                          st(OP_REQ, 4, b"ping meanwhile"), st(OP_WRITE, 1, b"ping slow one"), st(OP_FIN, 1), st(OP_AWAIT, 1),
                          st(OP_WRITE, 2, b"ow two"), st(OP_FIN, 2), st(OP_AWAIT, 2), st(OP_AWAIT, 3)], "conc-slow-client"))
+    return out
+
+
+# what can close the socket while the accept loop re-listens; None = Manager::shutdown() from outside the socket
+WINDOW_CLOSERS = [b"t-close", b"shutdown no-wait", b"t-fail-close", b"shutdown", None]
+
+
+def relisten_window_script(rng, ms, closer, close=True):
+    """The socket file is removed and the script goes on AT ONCE: `ms` later (the watcher sleeps 100 ms before it tells the
+    accept loop, which drops its listener, pauses 100 ms, empties its channel and binds the path again) requests on
+    connections that were accepted BEFORE the removal are completed -- with `close`, one of them is a closing command (or
+    the shutdown is initiated from outside).  Afterwards: is a listener bound to the path, does it answer?  Nothing connects
+    between the removal and that question (whether such a connect is refused depends on the instant)."""
+    steps = [st(OP_REQ, 1, b"ping before-%d" % ms), st(OP_OPEN, 2), st(OP_WRITE, 2, b"ping held " + tok(rng)),
+             st(OP_OPEN, 3), st(OP_WRITE, 3, b"t-count")]
+    if close and closer is not None:
+        steps += [st(OP_OPEN, 4), st(OP_WRITE, 4, closer)]
+    steps += [st(OP_UNLINK_NOW), st(OP_SLEEP, ms)]
+    held = [[st(OP_FIN, 2), st(OP_AWAIT, 2)], [st(OP_FIN, 3), st(OP_AWAIT, 3)]]
+    rng.shuffle(held)
+    n_before = rng.choice((0, 0, 0, 1, 2)) if close else 2      # mostly: the close is the first thing after the pause
+    for h in held[:n_before]:
+        steps += h
+    if close:
+        steps += [st(OP_SHUTDOWN)] if closer is None else [st(OP_FIN, 4), st(OP_AWAIT, 4)]
+    for h in held[n_before:]:
+        steps += h
+    steps += [st(OP_RELISTENED, 0), st(OP_REQ, 9, b"ping after-%d" % ms), st(OP_REQ, 10, b"t-count")]
+    if close and (closer is None or closer.startswith(b"shutdown")):
+        steps.append(st(OP_FINISHED, 0))
+    if rng.random() < 0.5:
+        steps += [st(OP_UNLINK_NOW), st(OP_RELISTENED, 1), st(OP_REQ, 11, b"ping end")]
+    return steps
+
+
+def relisten_window_sessions(rng, quick):
+    out = []
+    off = rng.randrange(len(WINDOW_CLOSERS))
+    # the pause of the accept loop lies 100..200 ms after the removal (later on a loaded machine): every 10 ms of it
+    for n, ms in enumerate(range(100, 201, 10) if quick else range(95, 231, 5)):
+        for closer in ([WINDOW_CLOSERS[(n + off) % len(WINDOW_CLOSERS)]] if quick else WINDOW_CLOSERS):
+            out.append(conc(relisten_window_script(rng, ms, closer), "conc-close-in-relisten"))
+    # ... the watcher's 100 ms before it, and the new listener after it
+    for ms in ((0, 60, 260, 400) if quick else (0, 20, 40, 60, 80, 250, 300, 400, 700)):
+        out.append(conc(relisten_window_script(rng, ms, rng.choice(WINDOW_CLOSERS)), "conc-close-in-relisten"))
+    # no close: the requests are answered whenever they are completed, the path is bound again and answers
+    for ms in ((0, 130, 170, 260) if quick else (0, 50, 100, 120, 140, 160, 180, 200, 250, 400)):
+        out.append(conc(relisten_window_script(rng, ms, None, close=False), "conc-request-in-relisten"))
     return out
 
 
@@ -1029,9 +1122,14 @@ def show(req):
     return repr(req if len(req) <= 120 else req[:70] + b"..." + req[-30:]) + " (%d bytes)" % len(req)
 
 
+CERTAIN_CLOSERS = (b"t-close", b"t-fail-close", b"shutdown", b"shutdown no-wait")
+
+
 def conc_oracle(steps, outputs):
     reqs, late, blocked_ok = {}, set(), set()
     closing = shutdown = gate = False
+    closed_by = None        # the socket HAS been closed: the reply of a closing command was read / Manager::shutdown() returned
+    after_close = set()     # connections opened after that
     count = 0
     oi = 0
     inflight = []
@@ -1042,12 +1140,15 @@ def conc_oracle(steps, outputs):
             reqs[k] = b""
             if closing:
                 late.add(k)
+            if closed_by is not None:
+                after_close.add(k)
         if op in (OP_WRITE, OP_REQ, OP_SEND) and k in reqs:
             reqs[k] += b
         if op in (OP_FIN, OP_REQ, OP_SEND, OP_DROP) and may_close(reqs.get(k, b"")):
             closing = True
         if op == OP_SHUTDOWN:
             closing = shutdown = True
+            closed_by = closed_by or "Manager::shutdown()"
         if op == OP_RELEASE:
             gate = True
         if op == OP_EXHAUST:
@@ -1056,13 +1157,16 @@ def conc_oracle(steps, outputs):
                 late.add(k)
         if op in (OP_OPEN, OP_SEND, OP_EXHAUST):
             inflight.append(k)
-        if op in (OP_UNLINK, OP_FINISHED):
+        if op in (OP_UNLINK, OP_FINISHED, OP_RELISTENED):
             if oi >= len(outputs):
                 return "the harness produced %d outputs, the script has more reading steps" % len(outputs)
             o = outputs[oi]
             oi += 1
             code = o[1][1][1][0][1] if o[0] == "L" and len(o[1]) == 2 and o[1][1][0] == "L" and o[1][1][1] else None
-            if op == OP_UNLINK and code == 7 and not closing:
+            if op in (OP_UNLINK, OP_RELISTENED) and code == 6 and closed_by is not None:
+                return ("the socket had been closed by %s (its reply was read) and is BOUND AGAIN to its path afterwards: a closed instance "
+                        "listens on the control socket (the close that arrived while the accept loop re-listened was lost)" % closed_by)
+            if op in (OP_UNLINK, OP_RELISTENED) and code == 7 and not closing:
                 return ("after the socket file was removed nobody listens at the path any more (within 10 s) although no request that closes the "
                         "socket had been sent: the socket does not answer the next request")
             if op == OP_FINISHED and code == 9 and (shutdown or any(b"shutdown" in r for r in reqs.values())):
@@ -1090,16 +1194,21 @@ def conc_oracle(steps, outputs):
                 continue
             if code == 1 and k in late:
                 continue
+            if code == 0 and k in after_close:
+                return ("%s: ANSWERED (%r) although the socket had been closed by %s before this connection was opened"
+                        % (what, reply[1][1][1][:60], closed_by))
             why = check_reply(req, reply, what)
             if why:
                 return why
-            if op == OP_REQ and req == b"t-count":
+            if op in (OP_REQ, OP_AWAIT) and req == b"t-count":
                 data = reply[1][1][1]
                 if data != b"ok %d" % count:
                     return "%s: the counter plugin answered %r, expected %r (every request is handled exactly once)" % (what, data, b"ok %d" % count)
                 count += 1
             if op in (OP_AWAIT, OP_REQ) and k in inflight:
                 inflight.remove(k)
+            if op in (OP_AWAIT, OP_REQ) and code == 0 and req in CERTAIN_CLOSERS:
+                closed_by = closed_by or "the request %r" % req
         if op == OP_DROP and k in inflight:
             inflight.remove(k)
     return None
@@ -1547,15 +1656,23 @@ LEVEL_TEXT = ("Machine-checked Coq theorems over a code-point-level model of enc
               "the portless model is the special case (clear_without_ports); the real kvarnctl's stdout and exit status (kvarnctl_ping_prints, "
               "kvarnctl_exit_status: 0 exactly for a plugin's Ok, 1 for not-UTF-8 / unknown / plugin error, 6 for a binary reply); the socket file's "
               "removal and the re-listen restore exactly the previous state (socket_survives_unlink, unlinked_refuses_then_accepts_again), a closed "
-              "listener stays closed (closed_listener_is_final), a failed accept() changes nothing (accept_error_is_harmless), the task of a "
+              "listener stays closed (closed_listener_is_final), and a closing response or an outside close is final in EVERY state of the listener, "
+              "in particular between the removal of the socket file and the re-listen: its client gets the reply, nobody listens afterwards, every "
+              "new connection is refused (closing_response_is_final, outside_close_is_final); the accept loop with its channel as a model of its own: in "
+              "every state a close that was sent stays pending or received (accept_loop_close_is_final), the loop has stopped after at most two of "
+              "its own steps whatever is interleaved (accept_loop_stops_after_close), a loop that pauses or has stopped with a close pending never "
+              "gets back to accept() -- a closed instance never binds the path again (accept_loop_never_rebinds_after_close) --, reachable states "
+              "keep an invariant under which the re-bind cannot fail (accept_loop_invariant, accept_loop_rebinds) and every step of the loop is zero "
+              "or one step of the coarse listener (accept_loop_refines_listener); with the emptying loop's test negated the same history binds the "
+              "path again (Example ex_accept_loop: the theorems depend on that line); a failed accept() changes nothing (accept_error_is_harmless), the task of a "
               "connection whose client has gone away has the same effects incl. post_send (post_send_runs_without_client, "
               "shutdown_without_client_finishes). Three statements were FALSE of the code as found and are proved refuted on its faithful model, "
               "reproduced on the real code and repaired (fixed: lines in known-findings.txt): accept_error_ended_the_socket_refuted, "
               "post_send_skipped_refuted, wait_after_shutdown_refuted. The model is tied to /repo on every run by a differential run of the "
               "real functions (bounded-exhaustive over {a, SP, \", ', \\} + random Unicode) and of real unix-socket sessions against a running "
               "kvarn instance, sequential and with several connections pending at once, long requests around every length constant, the real "
-              "kvarnctl binary as a process, an instance with hosts and caches for clear, kvarn's own reload in a child process, socket-file removal, "
-              "descriptor exhaustion, vanished and slow clients, plus model-independent oracles on every reply and on the caches.")
+              "kvarnctl binary as a process, an instance with hosts and caches for clear, kvarn's own reload in a child process, socket-file removal (also with requests, closing commands and a shutdown DURING the re-listen, "
+              "the delay swept over the accept loop's pause), descriptor exhaustion, vanished and slow clients, plus model-independent oracles on every reply and on the caches.")
 LEVEL_NOTE = ("Trusted: Coq kernel, extraction (ExtrOcamlBasic) reduced by an in-kernel recheck sample, the hand transcription of "
               "utils/src/lib.rs, src/ctl.rs, signal/src/lib.rs and ctl/src/main.rs into Model/Quoted.v and Model/Ctl.v as validated by the "
               "differential run; tokio / the kernel's unix sockets are outside the theorems (read_to_end framing and 'a spawned task runs' assumed; promptness is "
@@ -1563,5 +1680,6 @@ LEVEL_NOTE = ("Trusted: Coq kernel, extraction (ExtrOcamlBasic) reduced by an in
               "(the model's splitter is quadratic in the token length); messages up to 64 KiB + are run. "
               "The model describes the code after the repairs of the empty-argument defect, the accept-error defect, the skipped post_send and the "
               "panicking wait (fixed: lines in known-findings.txt); the code before the last three is lstep_v0 / fx_plugins_chk_v0. Not modelled: "
-              "kvarnctl's flags, the uring build of kvarn_signal, the watcher's timing, partial writes. No axioms.")
+              "kvarnctl's flags, the uring build of kvarn_signal, time (the watcher's and the loop's 100 ms are events, the run sweeps the delay), partial "
+              "writes. No axioms.")
 TECHNIQUE = "Coq proof (model satisfies the round-trip and dispatch specification for all inputs and histories) + differential correspondence model vs. implementation"
